@@ -13,7 +13,7 @@ def nontrivial(r):
 
 def run(chk):
     n = 160 if chk.tier == "quick" else 2400
-    HC.run_prop(chk, "C06", ["C06", "C06:sge", "C06:lsf", "C06"], n, RULE, ASSUME, nontrivial)
+    HC.run_prop(chk, "C06", ["C06", "C06:sge", "C06:lsf", "C06:local"], n, RULE, ASSUME, nontrivial)
 
 
 def replay(chk, data):
